@@ -133,7 +133,7 @@ Proof.
 Qed.
 
 (** operator == / != *)
-Lemma eq_op_refines s o : Inv L s -> Inv L o -> eq_op s o = Ok (list_eqb (abs s) (abs o)).
+Lemma eq_op_refines Lo s o : Inv L s -> Inv Lo o -> eq_op s o = Ok (list_eqb (abs s) (abs o)).
 Proof.
   intros (Hb & Hl & Hz) (Hbo & Hlo & Hzo). unfold eq_op.
   destruct (N.eqb_spec (len s) (len o)) as [E|E].
@@ -150,9 +150,9 @@ Proof.
     apply (f_equal nlen) in H. unfold abs in H. revert H. nl. lia.
 Qed.
 
-Lemma ne_op_refines s o : Inv L s -> Inv L o -> ne_op s o = Ok (negb (list_eqb (abs s) (abs o))).
+Lemma ne_op_refines Lo s o : Inv L s -> Inv Lo o -> ne_op s o = Ok (negb (list_eqb (abs s) (abs o))).
 Proof.
-  intros Hs Ho. rewrite eq_ne_complementary, (eq_op_refines s o Hs Ho). reflexivity.
+  intros Hs Ho. rewrite eq_ne_complementary, (eq_op_refines Lo s o Hs Ho). reflexivity.
 Qed.
 
 (** substr, copy *)
